@@ -13,8 +13,8 @@ RULE = ("deterministic virtual-clock event loop; a real BaseClient (recording se
         "process_message; timeout in {none, 2.25, 4.25, 7.25} (never tying with the grid), polling in {off, delay 1/interval 1, delay "
         "2/interval 3}, condition kind {expect, initial, check} x event kind {value, state, any = no element filter and default event type, where the "
         "non-matching events are re-definitions raising value, state and definition events}. The complete grid is enumerated (quick: 6 "
-        "points, thorough: 7 points). Oracle: the wait returns the FIRST matching event object (identity, from an always-registered "
-        "spy) at that event's virtual instant, or raises at exactly the timeout instant - never both, never neither; getProperties "
+        "points, thorough: 7 points). Oracle: the wait returns the FIRST matching event object (identity, from a "
+        "spy tapping trigger_event; the callback registry holds only what the waits registered) at that event's virtual instant, or raises at exactly the timeout instant - never both, never neither; getProperties "
         "polls happen exactly at delay + k*interval while waiting and never after completion; no callback stays registered. "
         "non-trivial = a run in which at least one event was injected; distinct = hash(pattern, timeout, polling, condition)")
 ASSUMPTIONS = ["exact ties between an event and the timeout instant are excluded by off-grid constants"]
@@ -165,7 +165,14 @@ def run_one(ctx, case):
 
     client = Client()
     spy = []
-    client.onevent(callback=lambda ev: spy.append((loop.time(), ev)))
+    # the spy taps the dispatch entry point instead of registering a callback of its own: the client's callback registry holds
+    # nothing but what the waits under test put there
+    real_trigger = client.trigger_event
+
+    def tapped_trigger(ev):
+        spy.append((loop.time(), ev))
+        return real_trigger(ev)
+    client.trigger_event = tapped_trigger
     results = []
     injected = [0]
     redefs = [0]
